@@ -142,6 +142,37 @@ func (s *scriptShard) ServeHTTP(w http.ResponseWriter, r *http.Request) {
 			fail()
 			return
 		}
+		// like a sidecar: exactly the posted targets, kept ones keep their statistics,
+		// the counter restarts when a copy goes from normal to in_transfer
+		var req shard.UpdateTargetsRequest
+		body, _ := io.ReadAll(r.Body)
+		if json.Unmarshal(body, &req) == nil {
+			nc := map[uint64]*Copy{}
+			for _, ts := range req.Targets {
+				for _, t := range ts {
+					c := s.spec.Copies[t.Hash]
+					if c == nil {
+						c = &Copy{Health: "unknown", Series: t.Series, Total: t.TotalSeries}
+					} else {
+						cc := *c
+						c = &cc
+						if c.State == "" && t.TargetState == "in_transfer" {
+							c.Times = 0
+						}
+					}
+					c.State = t.TargetState
+					nc[t.Hash] = c
+				}
+			}
+			s.spec.Copies = nc
+			if len(nc) == 0 && s.spec.IdleAgo == nil {
+				d := time.Duration(0)
+				s.spec.IdleAgo = &d
+			}
+			if len(nc) != 0 {
+				s.spec.IdleAgo = nil
+			}
+		}
 		writeJSON(w, 200, api.Data(nil))
 	case "POST /api/v1/status/extra_config":
 		if s.spec.PostExtra == "503" {
@@ -197,6 +228,7 @@ type manager struct {
 	scale  []cyc.ScaleRec
 	nScale int
 	onList func()
+	cycle  *int
 }
 
 func (m *manager) Shards() ([]*shard.Shard, error) {
@@ -208,7 +240,7 @@ func (m *manager) Shards() ([]*shard.Shard, error) {
 	}
 	var out []*shard.Shard
 	for i, sh := range m.spec.Shards {
-		out = append(out, shard.NewShard(m.hosts[i], "http://"+m.hosts[i], sh.Ready, m.log))
+		out = append(out, shard.NewShard(m.hosts[i], "http://"+m.hosts[i], sh.Ready && *m.cycle >= sh.ReadyFrom, m.log))
 	}
 	return out, nil
 }
@@ -228,9 +260,21 @@ func (m *manager) ChangeScale(n int32) error {
 	return nil
 }
 
-type replicas struct{ ms []shard.Manager }
+type replicas struct {
+	ms    []shard.Manager
+	calls int
+	cycle *int
+	reset func()
+}
 
-func (r *replicas) Replicas() ([]shard.Manager, error) { return r.ms, nil }
+func (r *replicas) Replicas() ([]shard.Manager, error) {
+	*r.cycle = r.calls
+	r.calls++
+	if r.reset != nil {
+		r.reset()
+	}
+	return r.ms, nil
+}
 
 // one cycle -------------------------------------------------------------------
 
@@ -238,6 +282,16 @@ type Outcome struct {
 	Trace    *cyc.CycleTrace
 	Releases []string // release order of requests (host method path)
 	Elapsed  time.Duration
+	AllCalls []*simnet.Call // every request of every cycle
+	AllScale []string
+}
+
+func scaleValues(s []cyc.ScaleRec) []int32 {
+	var v []int32
+	for _, x := range s {
+		v = append(v, x.Value)
+	}
+	return v
 }
 
 var bubbleStart = time.Date(2000, 1, 1, 0, 0, 0, 0, time.UTC)
@@ -282,10 +336,35 @@ func runInBubble(tp *core.Tape, e *core.Env, sc *Scenario, replicaSel []int, out
 	shards := map[string]*scriptShard{}
 	subRand := map[string]*core.Rand{}
 	var mgrs []*manager
-	rm := &replicas{}
+	cycleNo := 0
+	rm := &replicas{cycle: &cycleNo}
+	rm.reset = func() {
+		for _, m := range mgrs {
+			m.nScale = 0
+		}
+		for _, ss := range shards {
+			ss.mu.Lock()
+			ss.nRT = 0
+			ss.mu.Unlock()
+		}
+	}
 	for _, ri := range replicaSel {
-		rs := sc.Replicas[ri]
-		m := &manager{id: fmt.Sprintf("r%d", ri), spec: rs, net: net, log: log}
+		// the scripted sidecars mutate their copies when targets are posted: work on a private copy
+		rs := &ReplicaSpec{ListErr: sc.Replicas[ri].ListErr, ScaleErrEarly: sc.Replicas[ri].ScaleErrEarly, ScaleErrFinal: sc.Replicas[ri].ScaleErrFinal}
+		for _, sh := range sc.Replicas[ri].Shards {
+			c := *sh
+			c.Copies = map[uint64]*Copy{}
+			for h, cp := range sh.Copies {
+				cc := *cp
+				c.Copies[h] = &cc
+			}
+			if sh.IdleAgo != nil {
+				d := *sh.IdleAgo
+				c.IdleAgo = &d
+			}
+			rs.Shards = append(rs.Shards, &c)
+		}
+		m := &manager{id: fmt.Sprintf("r%d", ri), spec: rs, net: net, log: log, cycle: &cycleNo}
 		for i, sh := range rs.Shards {
 			host := fmt.Sprintf("r%d-s%d", ri, i)
 			m.hosts = append(m.hosts, host)
@@ -376,6 +455,11 @@ func runInBubble(tp *core.Tape, e *core.Env, sc *Scenario, replicaSel []int, out
 		}
 	}
 	steps := 0
+	cyclesLeft := sc.Cycles
+	if cyclesLeft < 1 {
+		cyclesLeft = 1
+	}
+	firstCycleEnd, firstDone := 0, false
 	for {
 		synctest.Wait()
 		if finished() {
@@ -383,7 +467,17 @@ func runInBubble(tp *core.Tape, e *core.Env, sc *Scenario, replicaSel []int, out
 		}
 		pend := net.Pending()
 		if len(pend) == 0 {
-			break // coordinator asleep in its Period: the cycle is over
+			// coordinator asleep in its Period: the cycle is over
+			cyclesLeft--
+			if !firstDone {
+				firstCycleEnd, firstDone = net.Seq(), true
+			}
+			if cyclesLeft <= 0 {
+				break
+			}
+			// let the period pass (at an instant of its own) so that the next cycle starts
+			time.Sleep(opt.Period + time.Duration(137*(sc.Cycles-cyclesLeft))*time.Microsecond)
+			continue
 		}
 		steps++
 		if steps > 2000 {
@@ -417,16 +511,29 @@ func runInBubble(tp *core.Tape, e *core.Env, sc *Scenario, replicaSel []int, out
 	verifhook.SetSalt(0)
 	out.Elapsed = time.Since(start)
 
-	// build the trace
+	// build the trace of the first cycle (the cycle oracles look at one cycle)
 	byHost := map[string][]*simnet.Call{}
 	for _, c := range net.Log {
+		out.AllCalls = append(out.AllCalls, c)
+		if firstDone && c.Seq > firstCycleEnd {
+			continue
+		}
 		byHost[c.Host] = append(byHost[c.Host], c)
 	}
 	for _, m := range mgrs {
-		rt := &cyc.ReplicaTrace{ID: m.id, ListErr: m.spec.ListErr, Scale: m.scale}
+		out.AllScale = append(out.AllScale, fmt.Sprintf("%s:%v", m.id, scaleValues(m.scale)))
+	}
+	for mi, m := range mgrs {
+		var firstScale []cyc.ScaleRec
+		for _, x := range m.scale {
+			if !firstDone || x.Seq <= firstCycleEnd {
+				firstScale = append(firstScale, x)
+			}
+		}
+		rt := &cyc.ReplicaTrace{ID: m.id, ListErr: m.spec.ListErr, Scale: firstScale}
 		for i, h := range m.hosts {
-			st := cyc.BuildShard(h, m.spec.Shards[i].Ready, byHost[h], CoordHash)
-			sp := m.spec.Shards[i]
+			st := cyc.BuildShard(h, m.spec.Shards[i].Ready && m.spec.Shards[i].ReadyFrom == 0, byHost[h], CoordHash)
+			sp := sc.Replicas[replicaSel[mi]].Shards[i]
 			st.Truth = map[uint64]string{}
 			for hh, c := range sp.Copies {
 				st.Truth[hh] = c.State
